@@ -18,12 +18,12 @@
 (*           alone is MODEL-DRIFT, never a property violation)             *)
 (*   Cnn.*   the clauses of property Cnn (see DESIGN.md section 5)         *)
 (***************************************************************************)
-EXTENDS TraphImpl, TraphAbs, Queries, TLC
+EXTENDS TraphImpl, TraphAbs, Queries, TraphCoop, Torn, TLC
 
 Traces == Batch.traces
 
-VARIABLES tid, k, cur, ram, def, bad, dead
-vars == <<tid, k, cur, ram, def, bad, dead>>
+VARIABLES tid, k, cur, ram, def, bad, dead, gens
+vars == <<tid, k, cur, ram, def, bad, dead, gens>>
 
 Tr == Traces[tid]
 Steps == Tr.steps
@@ -184,9 +184,81 @@ FileClauses(st, rm, d, S, post, o0, o1) ==
       <<"C03.files",   InLinksOf(post.trie, post.ls) = OutLinksOf(post.trie, post.ls)>>
      >>)
 
-StepClauses(st, rm, d, S, post, o0) ==
+(***************************************************************************)
+(* C16: generator requests advanced in turns.  CoopBegin registers the     *)
+(* requests; each CoopNext is one next() on one of them, validated against *)
+(* TraphCoop!RunGen from the logged store.                                 *)
+(***************************************************************************)
+IsCoop(S) == S.op \in {"CoopBegin", "CoopNext"}
+QueryGen == [kind |-> "query", phase |-> "run", done |-> FALSE, exc |-> "", pages |-> 0, created |-> <<>>]
+MkGen(x) ==
+  CASE x.kind = "crawl" -> NewCrawl(x.data)
+    [] x.kind = "rule"  -> NewRule(x.anchor, x.rule)
+    [] OTHER -> QueryGen
+
+CoopRam(rm, gs, S) ==
+  IF S.op = "CoopNext" /\ gs[S.a.g].kind = "rule" /\ gs[S.a.g].phase = "start"
+  THEN RamSet(rm, gs[S.a.g].anchor, gs[S.a.g].rule) ELSE rm
+
+CoopRun(st, rm, d, gs, S) ==      \* [st, g] after the step (queries: nothing changes)
+  LET g == gs[S.a.g] IN
+  IF g.kind = "query" THEN [st |-> [st EXCEPT !.wlog = <<>>], g |-> [g EXCEPT !.done = S.a.done]]
+  ELSE RunGen(st, CoopRam(rm, gs, S), d, g)
+
+NewGens(st, rm, d, gs, S) ==
+  CASE S.op = "CoopBegin" -> [j \in 1..Len(S.a.gens) |-> MkGen(S.a.gens[j])]
+    [] S.op = "CoopNext"  -> [gs EXCEPT ![S.a.g] = CoopRun(st, rm, d, gs, S).g]
+    [] OTHER -> gs
+
+RECURSIVE SeqCrawls(_, _, _)
+SeqCrawls(A, descr, i) ==
+  IF i > Len(descr) THEN A
+  ELSE IF descr[i].kind = "crawl"
+       THEN SeqCrawls(AbsIndexBatchCrawl(A, EmptyRam, [k |-> "never", n |-> 0], descr[i].data).A, descr, i + 1)
+       ELSE SeqCrawls(A, descr, i + 1)
+
+RECURSIVE InterAll(_, _)
+InterAll(m, i) == IF i > Len(m) THEN {} ELSE IF i = Len(m) THEN SeqSet(m[i]) ELSE SeqSet(m[i]) \cap InterAll(m, i + 1)
+UnionAll(m) == UNION { SeqSet(m[i]) : i \in 1..Len(m) }
+
+CoopClauses(st, rm, d, gs, S, post, o0, o1) ==
+  IF S.op = "CoopBegin"
+  THEN FailNames(<< <<"bind.trie", post.trie = st.trie /\ post.ls = st.ls>>, <<"bind.wlog", S.w = <<>>>> >>)
+  ELSE
+    LET r == CoopRun(st, rm, d, gs, S)
+        isq == gs[S.a.g].kind = "query"
+        fin == S.q.final
+    IN FailNames(<<
+      <<"bind.exc",    r.g.exc = S.exc>>,
+      <<"bind.done",   isq \/ r.g.done = S.a.done>>,
+      <<"bind.report", isq \/ ~S.a.done \/ (r.g.pages = S.pages /\ r.g.created = S.created)>>,
+      <<"bind.trie",   r.st.trie = post.trie>>,
+      <<"bind.links",  r.st.ls = post.ls>>,
+      <<"bind.hdr",    r.st.lastId = post.lastId>>,
+      <<"bind.wlog",   WriteOrder(r.st.wlog) = WriteOrder(S.w)>>,
+      <<"C16.nofail",  S.exc = "">>,
+      <<"C16.monotone", PSet(o0) \subseteq PSet(o1) /\ CSet(o0) \subseteq CSet(o1)
+                        /\ LinkLeq(OutT(o0), OutT(o1)) /\ LinkLeq(InT(o0), InT(o1))>>,
+      <<"C16.sym",     fin.last => { e \in OutT(o1) : e[1] # e[2] } = InT(o1)>>,
+      <<"C16.final",   fin.last =>
+                         LET A0 == [EmptyAbs EXCEPT !.pages = LSet(fin.pages0), !.links = Trip3(fin.outs0),
+                                                    !.crawled = { fin.pages0[j].l : j \in { i \in 1..Len(fin.pages0) : fin.pages0[i].cr } }]
+                             W == SeqCrawls(A0, fin.gens, 1)
+                         IN W.pages = PSet(o1) /\ W.crawled = CSet(o1) /\ W.links = OutT(o1)>>,
+      <<"C16.bounds",  fin.last => \A j \in 1..Len(fin.bounds) :
+                         LET b == fin.bounds[j] IN
+                         /\ b.exc = ""
+                         /\ InterAll(b.moments, 1) \subseteq SeqSet(b.result)
+                         /\ SeqSet(b.result) \subseteq UnionAll(b.moments)>>
+    >>)
+
+StepClauses(st, rm, d, gs, S, post, o0) ==
   LET inv == TstInvFailure(post.trie, post.ls) IN
-  IF inv # ""
+  IF IsCoop(S)
+  THEN [names |-> (IF inv # "" THEN <<"C02.inv." \o inv, "C16.structure">> ELSE <<>>)
+                  \o CoopClauses(st, rm, d, gs, S, post, o0, S.obs),
+        dead |-> inv # ""]
+  ELSE IF inv # ""
   THEN [names |-> <<"C02.inv." \o inv>> \o ObsClauses(st, rm, d, S, post, o0, S.obs), dead |-> TRUE]
   ELSE [names |-> ObsClauses(st, rm, d, S, post, o0, S.obs)
                   \o FileClauses(st, rm, d, S, post, o0, S.obs)
@@ -235,6 +307,7 @@ Init ==
   /\ def = [k |-> "domain", n |-> 0]
   /\ bad = <<>>
   /\ dead = FALSE
+  /\ gens = <<>>
 
 Tag(j, names) == [i \in 1..Len(names) |-> <<j, names[i]>>]
 
@@ -244,13 +317,14 @@ Next ==
   /\ LET S    == Steps[k + 1]
          post == PostStore(cur, S)
          o0   == IF k = 0 \/ S.reset THEN EmptyObs ELSE Steps[k].obs
-         f0   == StepClauses(cur, ram, def, S, post, o0)
+         f0   == StepClauses(cur, ram, def, gens, S, post, o0)
          f    == [f0 EXCEPT !.names = @ \o PairClauses(S, k + 1)
                                         \o (IF k = 0 THEN <<>> ELSE LifeClauses(S, Steps[k], post, cur))]
      IN /\ bad' = bad \o Tag(k + 1, f.names)
         /\ dead' = f.dead
         /\ cur' = post
-        /\ ram' = NewRam(ram, S)
+        /\ gens' = NewGens(cur, ram, def, gens, S)
+        /\ ram' = IF IsCoop(S) THEN CoopRam(ram, gens, S) ELSE NewRam(ram, S)
         /\ def' = NewDef(def, S)
   /\ k' = k + 1
   /\ UNCHANGED tid
